@@ -1,5 +1,6 @@
 import GodiProofs.Container.Close
 import GodiProofs.Container.CloseReport
+import GodiProofs.Container.CloseTwice
 /-!
 # C12 — Close is complete under errors, reports them, and is idempotent (sequential clauses)
 
@@ -45,6 +46,18 @@ theorem scope_close_idempotent (beh : Beh) (order : List Nat → List Nat) (f : 
 theorem provider_close_idempotent (beh : Beh) (order : List Nat → List Nat) (st : State) (h : st.disposed = true) :
     closeProvider beh order st = (st, false) := by
   unfold closeProvider; simp [h]
+
+/-- CLOSE TWICE = CLOSE ONCE, composed: whatever state the first `Provider.Close` ran in (any scope tree, any
+failing `Close()` methods, any iteration order), a second `Provider.Close` returns nil, changes nothing and
+logs nothing — nothing is closed a second time -/
+theorem provider_close_twice_is_once (beh : Beh) (order order' : List Nat → List Nat) (st : State) :
+    closeProvider beh order' (closeProvider beh order st).1 = ((closeProvider beh order st).1, false) :=
+  closeProvider_twice beh order order' st
+
+/-- the same for a scope, for every fuel and order of the second call -/
+theorem scope_close_twice_is_once (beh : Beh) (order order' : List Nat → List Nat) (f f' : Nat) (st : State) (s : Nat) :
+    closeScope beh order' f' (closeScope beh order (f + 1) st s).1 s = ((closeScope beh order (f + 1) st s).1, false) :=
+  closeScope_twice beh order order' f f' st s
 
 /-- and the first Close does leave the scope disposed, so the second one is the case above -/
 theorem closed_is_disposed (beh : Beh) (order : List Nat → List Nat) (f : Nat) (st : State) (s : Nat)
